@@ -3,7 +3,7 @@
 From Coq Require Import ZArith List Bool Lia Permutation.
 From MxlBase Require Import ListX.
 From Core Require Import Sort SortProofs Model Cache Query.
-From CoreP Require Import Spec ProofsEnv ProofsEval ProofsNames ProofsSplit.
+From CoreP Require Import Spec ProofsEnv ProofsEval ProofsNames ProofsSplit ProofsStoich.
 Import ListNotations.
 
 (** the two start environments, named *)
@@ -523,5 +523,85 @@ Section CacheFacts.
       apply in_keys in H. intro Hd. names_contra m HWF p.
     - exact popped_holds_readd.
     - exact popped_holds.
+  Qed.
+
+  (** names that are neither time nor a variable / parameter / derived / reaction / surrogate
+      output are not bound in the returned table *)
+  Lemma popped_unbound k :
+    k <> time_name -> ~ In k (keys (m_var m)) -> ~ In k (keys (m_par m)) -> ~ In k (keys (m_der m)) ->
+    ~ In k (keys (m_rxn m)) -> ~ In k (surrogate_outputs m) -> lookup k popped = None.
+  Proof.
+    intros Ht Hv Hp Hd Hr Hso.
+    destruct (in_dec N.eq_dec k (keys (m_dat m))) as [Hdat|Hdat]; [apply popped_data; exact Hdat|].
+    rewrite popped_lookup by exact Hdat.
+    assert (Hnts : In k (keys (to_sort m)) -> In k (keys (m_sur m))).
+    { rewrite keys_to_sort, !in_app_iff. intros [H|[H|[H|[H|H]]]]; [exfalso|exfalso|contradiction|contradiction|exact H].
+      - apply Hv. apply cnt_In. apply cnt_In in H. pose proof (cnt_keys_plain_ias k (m_var m)). lia.
+      - apply Hp. apply cnt_In. apply cnt_In in H. pose proof (cnt_keys_plain_ias k (m_par m)). lia. }
+    rewrite e1_frame.
+    - rewrite args0_notvar; [|exact Ht|exact Hdat|intro H; apply Hv; apply Hvars; exact H].
+      apply has_lookup_None. destruct (has k all_par) eqn:Eh; [exfalso|reflexivity].
+      destruct (all_par_has k Eh) as [H|[Hs _]].
+      + apply Hp. apply cnt_In. apply cnt_In in H. pose proof (cnt_keys_plain_ias k (m_par m)). lia.
+      + destruct (s_class k Hs) as [Ef _]. unfold is_flux in Ef. apply orb_false_iff in Ef. destruct Ef as [_ Ef].
+        apply has_false in Ef. apply Ef. apply Hnts. apply order_in. apply s_in_order. exact Hs.
+    - intros nm c Hin _ Hk. destruct (to_sort_outs_strong m HWF nm c k Hin Hk) as [[-> Hns]|Hs]; [|contradiction].
+      apply Hns. apply Hnts. eapply in_keys. exact Hin.
+  Qed.
+
+  (** every flux name is bound in the returned table *)
+  Lemma popped_flux_bound rn : In rn (keys (all_rxn_entries m)) -> exists v, lookup rn popped = Some v.
+  Proof.
+    rewrite (keys_all_rxn_entries m), in_app_iff. intros [H|H].
+    - assert (Hk := H). unfold keys in H. apply in_map_iff in H. destruct H as [[rn' r] [E Hin]]. cbn [fst] in E. subst rn'.
+      assert (Hc : In (rn, CFn (r_fn r) (r_args r)) (containers m)).
+      { unfold containers. rewrite !in_app_iff. right. left. apply in_rxn_comps. exists r. split; [reflexivity|exact Hin]. }
+      destruct (e1_holds _ _ Hc) as (vs & v & _ & _ & Hl). exists v.
+      rewrite popped_lookup; [exact Hl|]. intro Hd. names_contra m HWF rn.
+    - destruct (sur_rxn_in m HWF rn H) as (sn & s' & Hin & Hout).
+      assert (Hc : In (sn, CSur (s_fn s') (s_args s') (s_out s')) (containers m)).
+      { unfold containers. rewrite !in_app_iff. right. right. apply in_sur_comps. exists s'. split; [reflexivity|exact Hin]. }
+      destruct (e1_holds _ _ Hc) as (vs & ws & _ & _ & Hlen & Hl).
+      destruct (In_nth_error _ _ Hout) as [i Hi].
+      destruct (nth_error ws i) as [w|] eqn:Ew.
+      + exists w. rewrite popped_lookup; [exact (Hl i rn w Hi Ew)|].
+        pose proof (sur_out_in m sn s' rn Hin Hout) as Hso. intro Hd. names_contra m HWF rn.
+      + exfalso. apply nth_error_None in Ew. assert (i < length (s_out s')) by (apply nth_error_Some; congruence). lia.
+  Qed.
+
+  Lemma popped_allpar k : In k a -> lookup k popped = lookup k dependent.
+  Proof.
+    intro H. apply a_frozen in H. rewrite popped_frozen by exact H. apply frozen_all_par. exact H.
+  Qed.
+
+  (** C01-b core: the accumulated vector is stoichiometry x rates over the returned table *)
+  Variables (st : list (name * list (name * Z))) (dy : list (name * list (name * (fnid * list name)))).
+  Hypothesis Hadd : add_rxn_list fsem a dependent ([], []) (all_rxn_entries m) = Val (st, dy).
+
+  Lemma rhs_core c var_names d2 :
+    c_stoich c = st -> c_dyn_stoich c = dy ->
+    rhs_of_args fsem c var_names popped = Val d2 ->
+    keys d2 = var_names
+    /\ forall x, In x var_names ->
+         exists v, lookup x d2 = Some v /\ rhs_spec fsem x (all_rxn_entries m) popped = Some v.
+  Proof.
+    intros Est Edy Hr.
+    destruct (add_rxns_rows fsem a dependent (all_rxn_entries m) ([], []) (st, dy) Hadd
+                            (nodup_keys_all_rxn_entries m HWF)) as (N1 & N2 & Hok & Hrows).
+    { intros rn ent Hin. apply (wf_st_keys m HWF rn ent Hin). }
+    cbn [fst snd] in N1, N2, Hrows.
+    destruct (rhs_of_args_spec fsem c var_names popped d2 Hr) as [Hk Hx].
+    { rewrite Est. apply N1. constructor. }
+    { rewrite Edy. apply N2. constructor. }
+    split; [exact Hk|]. intros x Hin. destruct (Hx x Hin) as (s1 & s2 & S1 & S2 & S3).
+    exists (s1 + s2)%Z. split; [exact S3|].
+    destruct (Hrows x) as [R1 R2].
+    { intros rn _. split; intros []. }
+    rewrite Est, R1 in S1. rewrite Edy, R2 in S2. cbn [app] in S1, S2.
+    apply (rxns_sum fsem a dependent popped popped_allpar x (all_rxn_entries m) s1 s2).
+    - intros rn Hrn. apply popped_flux_bound. exact Hrn.
+    - exact Hok.
+    - exact S1.
+    - exact S2.
   Qed.
 End CacheFacts.
